@@ -23,6 +23,7 @@ P_MAX_US = 10**12  # pulsetime <= ~11.5 days
 def install():
     C.stub(M, "int", S.sym_int)
     C.stub(HB, "timedelta", S.sym_timedelta)
+    C.stub(HB, "int", S.sym_int)
 
 
 def inputs(x, n, ntags=2):
